@@ -39,6 +39,11 @@ pub struct Case {
     pub truncate: u16,
     pub requests: Vec<Rq>,
     pub ram_seed: u64,
+    /// what happened to the machine before the tape requests: 0 nothing; 1 an SZX snapshot (of the
+    /// very RAM contents the rig holds) was loaded; 2 (128K) the program locked the paging latch
+    /// with the 48K BASIC ROM selected and then issued another, ignored, paging write
+    #[serde(default)]
+    pub prelude: u8,
 }
 
 pub const STUB: u16 = 0xBE00;
@@ -186,6 +191,41 @@ pub fn check(c: &Case, rec: &mut Rec) -> Result<(), String> {
         complete.push(off <= image.len());
     }
     let mut rig = mk_rig(c.machine, c.ram_seed, true);
+    match c.prelude % 3 {
+        1 => {
+            use crate::formats::szx;
+            let is128 = c.machine == Machine::K128;
+            let st = szx::SzxState {
+                machine_id: if is128 { 2 } else { 1 },
+                regs: RegFile { pc: 0x8000, sp: SP0, im: 1, ..Default::default() },
+                memptr: 0,
+                cycles: 1000,
+                halted: false,
+                ei_last: false,
+                f_set: false,
+                border: 3,
+                latch: if is128 { 0x10 } else { 0 },
+                fe: 3,
+                ay: None,
+                kempston_joystick: None,
+                mouse: None,
+            };
+            let file = szx::write(&st, &rig.m.ram, &szx::Layout::default());
+            rig.e.load_snapshot(rustzx_core::host::Snapshot::Szx(MemAsset::new(file))).map_err(|x| format!("prelude: load_snapshot(SZX): {:?}", x))?;
+            rec.class("prelude:szx-snapshot-loaded-before-the-requests");
+        }
+        2 if c.machine == Machine::K128 => {
+            mach::poke_bytes(&mut rig.e, &mut rig.m, 0xBE20, &[0x01, 0xFD, 0x7F, 0x3E, 0x30, 0xED, 0x79, 0x3E, 0x00, 0xED, 0x79]);
+            mach::set_regs(&mut rig.e, &RegFile { pc: 0xBE20, sp: SP0, ..Default::default() });
+            for len in [3u16, 2, 2, 2, 2] {
+                mach::step_over(&mut rig.e, len)?;
+            }
+            rig.m.latch = 0x30;
+            rig.m.locked = true;
+            rec.class("prelude:latch-locked-then-ignored-paging-write");
+        }
+        _ => {}
+    }
     rig.e.load_tape(Tape::Tap(DynAsset::new(MemAsset::new(image.clone())))).map_err(|x| format!("load_tape: {:?}", x))?;
     for (k, rq) in c.requests.iter().enumerate() {
         let block = blocks.get(k);
@@ -359,8 +399,9 @@ pub fn case_strategy() -> impl Strategy<Value = Case> {
         prop_oneof![5 => Just(0u16), 1 => 1u16..300],
         proptest::collection::vec(rq_strategy(), 1..=8),
         any::<u64>(),
+        prop_oneof![3 => Just(0u8), 1 => Just(1), 1 => Just(2)],
     )
-        .prop_map(|(machine, blocks, truncate, requests, ram_seed)| Case { machine, blocks, truncate, requests, ram_seed })
+        .prop_map(|(machine, blocks, truncate, requests, ram_seed, prelude)| Case { machine, blocks, truncate, requests, ram_seed, prelude })
 }
 
 /// Targeted probe for a listed finding: one LOAD request on an empty tape.
@@ -371,6 +412,7 @@ pub fn probe_end_of_tape_success() -> Result<bool, String> {
         truncate: 0,
         requests: vec![Rq { a_mode: 0, a: 0xFF, load: true, ix: 0x8000, de_mode: 5, de: 100, verify_mismatch_at: None }],
         ram_seed: 1,
+        prelude: 0,
     };
     let mut rec = Rec::default();
     match check(&c, &mut rec) {
